@@ -40,6 +40,7 @@ type ExObs struct {
 	LTot     float64            `json:"listener_total"`
 	DAct     float64            `json:"dialer_active"`
 	DTot     float64            `json:"dialer_total"`
+	Shutdown bool               `json:"shutdown"` // the case shut the proxy down while the exchange was in progress
 	Err      string             `json:"err"` // harness-level problem (rig could not be driven as planned)
 	Raw      string             `json:"raw"` // first bytes of the last reply (diagnostics)
 }
@@ -51,9 +52,9 @@ func (o *ExObs) Coq() string {
 		exs[i] = fmt.Sprintf("(mkex %s %s %d %s %s %d)", e.Val.Coq(), coqfmt.Str(e.Method), e.UpStatus, e.Feat.Coq(),
 			coqfmt.Bool(e.Seen), e.Client)
 	}
-	return fmt.Sprintf("{| o_exs := %s;\n   o_trace := %s;\n   o_closed := %s; o_check_end := %s;\n   o_inflight := %s;\n   o_total := %s;\n   o_lact := %s; o_dact := %s; o_harness_ok := %s |}",
+	return fmt.Sprintf("{| o_exs := %s;\n   o_trace := %s;\n   o_closed := %s; o_check_end := %s;\n   o_inflight := %s;\n   o_total := %s;\n   o_lact := %s; o_dact := %s; o_harness_ok := %s; o_shutdown := %s |}",
 		coqfmt.List("ex", exs), CoqTrace(o.Trace), coqfmt.Bool(o.Closed), coqfmt.Bool(o.CheckEnd),
-		CoqGauge(o.InFlight), CoqGauge(o.Total), coqfmt.Z(int64(o.LAct)), coqfmt.Z(int64(o.DAct)), coqfmt.Bool(o.Err == ""))
+		CoqGauge(o.InFlight), CoqGauge(o.Total), coqfmt.Z(int64(o.LAct)), coqfmt.Z(int64(o.DAct)), coqfmt.Bool(o.Err == ""), coqfmt.Bool(o.Shutdown))
 }
 
 // ExCase is a named way of driving the proxy through one leaf.
